@@ -41,7 +41,7 @@ impl Drop for Proc {
 }
 
 fn build_memcrsd() -> Result<String, String> {
-    let target = format!("{}/harness/target/memcrsd-build", VERIF_ROOT);
+    let target = format!("{}/harness/target/memcrsd-build", root());
     let st = Command::new("cargo")
         .args(["build", "--offline", "--bin", "memcrsd", "--manifest-path", "/repo/Cargo.toml", "--target-dir", &target, "-q"])
         .env("CARGO_NET_OFFLINE", "true")
